@@ -1,1 +1,294 @@
-(* Proofs/ParDot.v -- stub, to be filled in *)
+(* Proofs/ParDot.v -- lemmas about Model/ParDot.v (threaded dot product, C16). *)
+From Coq Require Import List Arith Lia Permutation Ring_theory Ring.
+From OV Require Import Base.Panic Base.Arith Model.Vector Model.ParDot.
+Import ListNotations.
+
+(* ------------------------------------------------------------------ list facts *)
+Lemma firstn_add_split {X} (a b : nat) (l : list X) :
+  firstn (a + b) l = firstn a l ++ firstn b (skipn a l).
+Proof.
+  revert l; induction a as [|a IH]; intros l; cbn; auto.
+  destruct l as [|h t]; cbn.
+  - now rewrite firstn_nil.
+  - now rewrite IH.
+Qed.
+
+Lemma firstn_all_skipn {X} (s n : nat) (l : list X) :
+  length l <= s + n -> firstn n (skipn s l) = skipn s l.
+Proof. intros H. apply firstn_all2. rewrite skipn_length. lia. Qed.
+
+Lemma combine_app_eq {X Y} (l1 l2 : list X) (m1 m2 : list Y) :
+  length l1 = length m1 -> combine (l1 ++ l2) (m1 ++ m2) = combine l1 m1 ++ combine l2 m2.
+Proof.
+  revert m1; induction l1 as [|h t IH]; intros [|h' t'] H; cbn in *; try discriminate; auto.
+  f_equal. apply IH. lia.
+Qed.
+
+(* ------------------------------------------------------------------ the partition *)
+Lemma chunk_mul_le len t : t * (len / t) <= len.
+Proof. destruct t as [|t]; [cbn; lia|]. apply Nat.mul_div_le. lia. Qed.
+
+Lemma chunk_bounds_ok len t i : 1 <= t -> i < t ->
+  let '(s, e) := chunk_bounds len t i in s <= e <= len.
+Proof.
+  intros Ht Hi. unfold chunk_bounds. pose proof (chunk_mul_le len t) as Hc.
+  set (c := len / t) in *.
+  destruct (Nat.eqb_spec i (t - 1)) as [->|Hne].
+  - split; [|lia]. nia.
+  - split; [nia|]. assert ((i + 1) * c <= t * c) by (apply Nat.mul_le_mono_r; lia). lia.
+Qed.
+
+(* contiguity: worker i+1 starts where worker i ends; the first starts at 0, the last ends at len *)
+Lemma chunk_bounds_contiguous len t i : S i < t ->
+  snd (chunk_bounds len t i) = fst (chunk_bounds len t (S i)).
+Proof.
+  intros Hi. unfold chunk_bounds; cbn [fst snd].
+  destruct (Nat.eqb_spec i (t - 1)); [lia|]. now rewrite Nat.add_1_r.
+Qed.
+
+Lemma chunk_bounds_first len t : fst (chunk_bounds len t 0) = 0.
+Proof. reflexivity. Qed.
+
+Lemma chunk_bounds_last len t : 1 <= t -> snd (chunk_bounds len t (t - 1)) = len.
+Proof. intros _. unfold chunk_bounds; cbn [snd]. now rewrite Nat.eqb_refl. Qed.
+
+Lemma concat_regular_chunks {X} (v : list X) c k :
+  concat (map (fun i => firstn c (skipn (i * c) v)) (seq 0 k)) = firstn (k * c) v.
+Proof.
+  induction k as [|k IH]; [reflexivity|].
+  rewrite seq_S, map_app, concat_app, IH. cbn [map concat plus]. rewrite app_nil_r.
+  replace (S k * c) with (k * c + c) by lia. now rewrite firstn_add_split.
+Qed.
+
+Lemma slices_concat {X} (v : list X) t : 1 <= t -> concat (slices v t) = v.
+Proof.
+  intros Ht. unfold slices. destruct t as [|t]; [lia|].
+  rewrite seq_S, map_app, concat_app. cbn [map concat plus]. rewrite app_nil_r.
+  set (c := length v / S t).
+  rewrite (map_ext_in _ (fun i => firstn c (skipn (i * c) v))).
+  - rewrite concat_regular_chunks.
+    unfold chunk_bounds. fold c. replace (S t - 1) with t by lia. rewrite Nat.eqb_refl.
+    rewrite firstn_all_skipn.
+    + apply firstn_skipn.
+    + pose proof (chunk_mul_le (length v) (S t)). fold c in H. nia.
+  - intros i Hi. apply in_seq in Hi. unfold chunk_bounds. fold c.
+    destruct (Nat.eqb_spec i (S t - 1)); [lia|].
+    f_equal. nia.
+Qed.
+
+Lemma chunks_cover_lemma {X} (v : list X) t : 1 <= t ->
+  (forall i, i < t -> let '(s, e) := chunk_bounds (length v) t i in s <= e <= length v) /\
+  (forall i, S i < t -> snd (chunk_bounds (length v) t i) = fst (chunk_bounds (length v) t (S i))) /\
+  fst (chunk_bounds (length v) t 0) = 0 /\ snd (chunk_bounds (length v) t (t - 1)) = length v /\
+  concat (slices v t) = v.
+Proof.
+  intros Ht. split; [|split; [|split; [|split]]].
+  - intros i Hi. now apply chunk_bounds_ok.
+  - intros i Hi. now apply chunk_bounds_contiguous.
+  - reflexivity.
+  - now apply chunk_bounds_last.
+  - now apply slices_concat.
+Qed.
+
+(* ------------------------------------------------------------------ the jobs are the slices *)
+Section Jobs.
+Context {A : Arith}.
+Notation T := (T A).
+
+Lemma mapM_ok {X Y} (f : X -> res Y) (g : X -> Y) (l : list X) :
+  (forall x, In x l -> f x = Ok (g x)) -> mapM f l = Ok (map g l).
+Proof.
+  induction l as [|h t IH]; intros H; cbn; auto.
+  rewrite (H h) by (now left). cbn. rewrite IH by (intros; apply H; now right). reflexivity.
+Qed.
+
+Definition slice_of {X} (v : list X) (t i : nat) : list X :=
+  let '(s, e) := chunk_bounds (length v) t i in firstn (e - s) (skipn s v).
+
+Lemma slices_map {X} (v : list X) t : slices v t = map (slice_of v t) (seq 0 t).
+Proof. reflexivity. Qed.
+
+Lemma job_ok (v w : list T) t i : 1 <= t -> i < t -> length v = length w ->
+  job v w t i = Ok (slice_of v t i, slice_of w t i).
+Proof.
+  intros Ht Hi Hl. unfold job, slice_of. rewrite <- Hl.
+  pose proof (chunk_bounds_ok (length v) t i Ht Hi) as Hb.
+  destruct (chunk_bounds (length v) t i) as [s e]. destruct Hb as [H1 H2].
+  unfold subslice. rewrite <- Hl.
+  apply Nat.leb_le in H1 as ->. apply Nat.leb_le in H2 as ->. reflexivity.
+Qed.
+
+Lemma jobs_ok (v w : list T) t : 1 <= t -> length v = length w ->
+  jobs v w t = Ok (map (fun i => (slice_of v t i, slice_of w t i)) (seq 0 t)).
+Proof.
+  intros Ht Hl. unfold jobs. apply mapM_ok. intros i Hi. apply in_seq in Hi.
+  apply job_ok; auto; lia.
+Qed.
+
+Lemma slice_of_length_eq (v w : list T) t i : length v = length w ->
+  length (slice_of v t i) = length (slice_of w t i).
+Proof.
+  intros Hl. unfold slice_of. rewrite <- Hl. destruct (chunk_bounds (length v) t i) as [s e].
+  rewrite !firstn_length, !skipn_length. lia.
+Qed.
+
+(* ------------------------------------------------------------------ scheduling *)
+Local Open Scope arith_scope.
+Lemma join_all_somes (xs : list T) acc :
+  join_all (map Some xs) acc = Ok (fold_left add xs acc).
+Proof. revert acc; induction xs as [|x t IH]; intros acc; cbn; auto. Qed.
+
+(* after the workers listed in sigma have completed, exactly their slots are filled *)
+Lemma complete_spec (js : list (list T * list T)) sigma slots :
+  length slots = length js -> (forall k, In k sigma -> k < length js) ->
+  exists slots', complete js sigma slots = Ok slots' /\ length slots' = length js /\
+    forall k, nth_error slots' k =
+      if in_dec Nat.eq_dec k sigma then option_map (fun j => Some (work j)) (nth_error js k)
+      else nth_error slots k.
+Proof.
+  revert slots; induction sigma as [|k0 rest IH]; intros slots Hlen Hin.
+  - exists slots; cbn; auto.
+  - cbn [complete].
+    assert (Hk0 : k0 < length js) by (apply Hin; now left).
+    destruct (nth_error js k0) as [j0|] eqn:Ej; [|apply nth_error_None in Ej; lia].
+    unfold rd at 1. rewrite Ej. cbn [bind].
+    rewrite upd_ok by lia. cbn [bind].
+    destruct (IH (upd_list slots k0 (Some (work j0)))) as (s' & E & L & N).
+    + now rewrite upd_list_length.
+    + intros k Hk; apply Hin; now right.
+    + exists s'; split; [exact E|split; [exact L|]]. intros k. rewrite N.
+      destruct (in_dec Nat.eq_dec k rest) as [Hr|Hr];
+      destruct (in_dec Nat.eq_dec k (k0 :: rest)) as [Hc|Hc]; auto.
+      * exfalso; apply Hc; now right.
+      * rewrite nth_error_upd_list by lia.
+        destruct (Nat.eqb_spec k k0) as [->|Hne].
+        -- now rewrite Ej.
+        -- destruct Hc as [Hc|Hc]; [congruence|contradiction].
+      * rewrite nth_error_upd_list by lia.
+        destruct (Nat.eqb_spec k k0) as [->|Hne]; auto. exfalso; apply Hc; now left.
+Qed.
+
+Lemma nth_error_ext {X} (l1 l2 : list X) : (forall k, nth_error l1 k = nth_error l2 k) -> l1 = l2.
+Proof.
+  revert l2; induction l1 as [|h t IH]; intros [|h' t'] H; auto.
+  - specialize (H 0); discriminate.
+  - specialize (H 0); discriminate.
+  - f_equal.
+    + specialize (H 0); cbn in H; congruence.
+    + apply IH. intros k. exact (H (S k)).
+Qed.
+
+Lemma complete_perm (js : list (list T * list T)) sigma :
+  Permutation sigma (seq 0 (length js)) ->
+  complete js sigma (repeat None (length js)) = Ok (map (fun j => Some (work j)) js).
+Proof.
+  intros HP.
+  destruct (complete_spec js sigma (repeat None (length js))) as (s' & E & L & N).
+  - apply repeat_length.
+  - intros k Hk. apply (Permutation_in _ HP) in Hk. apply in_seq in Hk. lia.
+  - rewrite E. f_equal. apply nth_error_ext. intros k. rewrite N, nth_error_map.
+    destruct (in_dec Nat.eq_dec k sigma) as [Hi|Hi]; auto.
+    assert (Hk : length js <= k).
+    { destruct (Nat.lt_ge_cases k (length js)) as [Hlt|]; auto.
+      exfalso; apply Hi. apply (Permutation_in _ (Permutation_sym HP)). apply in_seq. lia. }
+    apply nth_error_None in Hk as Hk'. rewrite Hk'. cbn.
+    apply nth_error_None. rewrite repeat_length. lia.
+Qed.
+
+Lemma fold_work_map (js : list (list T * list T)) acc :
+  fold_left add (map work js) acc = fold_left (fun a j => a + work j) js acc.
+Proof. revert acc; induction js as [|j t IH]; intros acc; cbn; auto. Qed.
+
+Lemma mapM_length {X Y} (f : X -> res Y) (l : list X) ys : mapM f l = Ok ys -> length ys = length l.
+Proof.
+  revert ys; induction l as [|h tl IH]; intros ys E; cbn in E.
+  - injection E as <-. reflexivity.
+  - apply bind_ok in E as (y & _ & E). apply bind_ok in E as (t' & E' & E).
+    injection E as <-. cbn. f_equal. now apply IH.
+Qed.
+
+Lemma jobs_length (v w : list T) t js : jobs v w t = Ok js -> length js = t.
+Proof. intros E. apply mapM_length in E. now rewrite seq_length in E. Qed.
+
+(* the result does not depend on the order in which the workers finish -- for ANY arithmetic
+   (floats included): both sides are the same expression *)
+Lemma schedule_independent_lemma sigma t (v w : list T) :
+  Permutation sigma (seq 0 t) -> run_sched sigma t v w = pardot t v w.
+Proof.
+  intros HP. unfold run_sched, pardot.
+  destruct (length v =? length w); auto. destruct (t =? 0); auto.
+  destruct (jobs v w t) as [js|k] eqn:Ej; cbn [bind]; auto.
+  pose proof (jobs_length _ _ _ _ Ej) as Hl. subst t.
+  rewrite complete_perm by exact HP. cbn [bind].
+  rewrite <- map_map with (f := work) (g := Some). rewrite join_all_somes. now rewrite fold_work_map.
+Qed.
+
+(* closed form for ANY arithmetic (floats included): the partial dot products of the slices, each summed from
+   zero in index order, added from zero in spawn order -- a fixed reassociation of the sequential sum that
+   depends on (length, t) only *)
+Lemma fold_left_map_gen {X Y Z} (f : Z -> Y -> Z) (g : X -> Y) (l : list X) (z : Z) :
+  fold_left f (map g l) z = fold_left (fun a x => f a (g x)) l z.
+Proof. revert z; induction l as [|x t IH]; intros z; cbn; auto. Qed.
+
+Lemma pardot_closed_form_lemma t (v w : list T) : 1 <= t -> length v = length w ->
+  pardot t v w = Ok (fold_left (fun acc i => acc + dot_raw (slice_of v t i) (slice_of w t i)) (seq 0 t) zero).
+Proof.
+  intros Ht Hl. unfold pardot. rewrite Hl, Nat.eqb_refl.
+  destruct (Nat.eqb_spec t 0); [lia|].
+  rewrite jobs_ok by auto. cbn [bind]. f_equal.
+  rewrite fold_left_map_gen. reflexivity.
+Qed.
+
+End Jobs.
+
+(* ------------------------------------------------------------------ exactness over a ring *)
+Section Ring.
+Local Open Scope arith_scope.
+Context {A : Arith}.
+Hypothesis RL : RingLaws A.
+Notation T := (T A).
+Add Ring ARing : (rl_ring A RL).
+
+Definition dot_from (z : T) (u w : list T) : T :=
+  fold_left (fun acc p => acc + fst p * snd p) (combine u w) z.
+
+Lemma dot_from_shift z (u w : list T) : dot_from z u w = z + dot_raw u w.
+Proof.
+  unfold dot_raw, dot_from. generalize (combine u w) as l. intros l.
+  revert z. induction l as [|p t IH]; intros z; cbn.
+  - ring.
+  - rewrite IH. rewrite (IH (zero + fst p * snd p)). ring.
+Qed.
+
+Lemma dot_raw_app (u1 u2 w1 w2 : list T) : length u1 = length w1 ->
+  dot_raw (u1 ++ u2) (w1 ++ w2) = dot_raw u1 w1 + dot_raw u2 w2.
+Proof.
+  intros H. unfold dot_raw at 1. rewrite combine_app_eq by exact H. rewrite fold_left_app.
+  change (dot_from (dot_raw u1 w1) u2 w2 = dot_raw u1 w1 + dot_raw u2 w2).
+  apply dot_from_shift.
+Qed.
+
+Lemma fold_work_concat (js : list (list T * list T)) z :
+  Forall (fun j => length (fst j) = length (snd j)) js ->
+  fold_left (fun acc j => acc + work j) js z
+  = z + dot_raw (concat (map fst js)) (concat (map snd js)).
+Proof.
+  intros HF; revert z; induction HF as [|j t Hj HF IH]; intros z; cbn [fold_left map concat].
+  - unfold dot_raw; cbn. ring.
+  - rewrite IH. rewrite dot_raw_app by exact Hj. unfold work. ring.
+Qed.
+
+Lemma pardot_exact_lemma t (v w : list T) : 1 <= t -> length v = length w ->
+  pardot t v w = dot v w.
+Proof.
+  intros Ht Hl. unfold pardot, dot. rewrite Hl, Nat.eqb_refl.
+  destruct (Nat.eqb_spec t 0); [lia|].
+  rewrite jobs_ok by auto. cbn [bind]. f_equal.
+  rewrite fold_work_concat.
+  - rewrite !map_map. cbn [fst snd].
+    rewrite <- !slices_map. rewrite !slices_concat by exact Ht. ring.
+  - apply Forall_forall. intros j Hj. apply in_map_iff in Hj as (i & <- & _). cbn [fst snd].
+    now apply slice_of_length_eq.
+Qed.
+
+End Ring.
